@@ -47,7 +47,8 @@ def gen_cases(ctx):
     cases += corpus
     n = 700 if ctx.tier == "quick" else 20000
     for _ in range(n):
-        kind = rng.choice(vecgen.KINDS)
+        # fixed-width strings (what `Vector(np.array([...]))` holds), unsigned and narrow integers are vectors too
+        kind = rng.choice(vecgen.KINDS + ["ustr", "ustr", "uint8", "int32"])
         ln = vecgen.gen_len(rng, ctx.tier)
         vals = vecgen.gen_vals(rng, kind, ln)
         op, arg = rng.choice(OPS)
